@@ -661,6 +661,7 @@ func init() {
 		Rules: []RuleDef{
 			{Name: "MERGE-STEP", What: "Adjacent and Compressor (splice form or accumulate form, recognised by roles, not names): the merge test compares the accumulated chunk's End with the current Begin; a merge keeps the accumulated Begin and the larger End (compared as whole virtual offsets), removes exactly one element, writes nothing else; Squash = {first Begin, running maximum of End}; Identity returns its argument", Floor: 10, Run: ruleChunkMergeStep},
 			{Name: "SORTED-PRE", What: "every application of a merge strategy is to a chunk list sorted by begin offset", Floor: 5, Run: ruleSortedPre},
+			{Name: "CHUNKS-FRESH", What: "the list a Chunks method sorts and merges in place is built in that call, never an alias of the index's storage (added after sixth-round seed C17-f)", Floor: 2, Run: ruleChunksFresh},
 		},
 		Explanation: "Only the structural necessary conditions: the shape of a merge step (added after a second-round seed for C04 removed the 'larger End' test from Adjacent and nothing reported it), Squash's span, Identity, and the callers' sortedness precondition. A merge that does not keep the larger End loses the tail of an enclosing chunk; one that does not take the left Begin loses its head; a test against another element's End leaves covered chunks apart.",
 		NotDecided:  "everything value-level in the statement: that the loops with their aliasing append produce a sorted list covering exactly/at least the input for every input, the Compressor threshold arithmetic, idempotence as such. An abstract interpreter with a slice memory model would be needed; none was built. A merge loop written in a third way (range loop, recursion, a new slice) is reported as not understood.",
